@@ -1260,6 +1260,10 @@ def rom_expected(cmds):
             out.append("memEnable(%d,%d,%d)" % (int(f[1]), int(f[2]), mem_flags(int(f[3]))))
         elif k == "jump":
             out.append("jump(%d,%d,%s)" % (int(f[1]), int(f[2][1:]), "-" if f[3] == "-" else f[3][1:]))
+        elif k == "call":
+            out.append("call(%d,%d)" % (int(f[1]), int(f[2][1:])))
+        elif k == "reset":
+            out.append("reset")
         elif k == "vc":
             out.append("fwVersionCheck(%d,%d)" % (int(f[1]), int(f[2][1:])))
         elif k == "ksto":
@@ -1275,7 +1279,7 @@ def rom_match(got, exp):
     """compare the ROM model's command list of one section with the expected one (load data: prefix + 16-byte padded length;
     keywrap output is random by design: address and length only)"""
     import re as _re
-    items = _re.findall(r"[A-Za-z]+\([^)]*\)", got)
+    items = _re.findall(r"[A-Za-z]+\([^)]*\)|reset|nop", got)
     if len(items) != len(exp):
         return False
     for g, e in zip(items, exp):
@@ -1417,8 +1421,7 @@ def program_streams(ck, real, drv, rng):
             st.compare(inp, got_u, m_u, "boot section ids of load_from_config differ from the model")
             want_u = ",".join(str(x) for x in prog["section_ids"])
             st.compare(inp, want_u, s_u, "Lean Spec.sectionUids differs from the ids the generator wrote")
-            st.expect(got_u == want_u, inp, "a boot section does not carry the id written in `section (id)`", got_u, want_u,
-                      finding="C19-section-id" if prog["section_ids"] != list(range(len(prog["section_ids"]))) else None)
+            st.expect(got_u == want_u, inp, "a boot section does not carry the id written in `section (id)`", got_u, want_u)
         for k in prog["kinds"]:
             st.hist["stmt:" + k] = st.hist.get("stmt:" + k, 0) + 1
         # oracle: every supported statement -> exactly the stated command
@@ -1457,7 +1460,7 @@ def program_streams(ck, real, drv, rng):
                             got_ids = [int(g.split(":")[0]) for g in secs]
                             e2e.expect(got_ids == prog["section_ids"], inp, "a section of the SB file does not carry the id written in `section (id)`",
                                        got_ids, prog["section_ids"],
-                                       finding="C19-section-id" if prog["section_ids"] != list(range(len(prog["section_ids"]))) else None)
+                 )
                             import re as _re
                             hd = dict(_re.findall(r"(flags|pv|cv|bn)=([^;]*);", ra[:ra.index("sections=")]))
                             want_h = {"flags": str(ref["header"][0]), "pv": ".".join(str(int(x, 16)) for x in ref["header"][1].split(".")),
@@ -1528,8 +1531,6 @@ def classify_known_stmt(stmt, prog):
         return "C19-blob-load"
     if is_prog_blob_zeros(stmt, m):
         return "C19-prog-blob-zeros"
-    if stmt["kind"] == "encrypt" and stmt.get("ref_swap"):
-        return "C19-keyblob-byteswap"
     return None
 
 
@@ -1558,9 +1559,6 @@ def classify_known_refusal(prog):
     blobs = [st for sec in prog["sections"] for st in sec if is_plain_blob_load(st, st.get("ref_mem")) and len(st["data"][1]) > 8]
     if blobs and prog.get("only_blob_refusal"):
         return "C19-blob-load"
-    stmts = [st for sec in prog["sections"] for st in sec]
-    if prog.get("only_call_reset") and stmts and all(st["kind"] in ("call", "reset") for st in stmts):
-        return "C19-call-reset"
     return None
 
 
@@ -1752,7 +1750,7 @@ def gen_program(rng, real, drv, unsup):
     def gen_stmt():
         k = rng.choices(["load_file", "load_blob", "load_pattern", "load_prog", "erase", "eraseall", "eraseunsec", "enable", "jump", "call",
                          "jumpsp", "reset", "ver", "ks", "keywrap", "encrypt"],
-                        [14, 7, 14, 7, 9, 4, 2, 6, 6, 0, 4, 0, 5, 5, 4, 4] if not call_reset else
+                        [14, 7, 14, 7, 9, 4, 2, 6, 6, 3, 4, 2, 5, 5, 4, 4] if not call_reset else
                         [0, 0, 0, 0, 0, 0, 0, 0, 0, 3, 0, 1, 0, 0, 0, 0])[0]
         if k == "load_file":
             d = ("source", rng.choice(src_names)) if src_names and rng.random() < 0.6 else ("file", rng.choice(["f16.bin", "f5.bin", "f600.bin"] + (["missing.bin"] if risky else [])))
